@@ -44,6 +44,9 @@ pub struct Profile {
     pub final_end_after: bool,
     /// also generate `clear_instr_at` calls that take earlier injections back
     pub clears: bool,
+    /// add memories although the module is parsed with `enable_multi_memory == false` (the base then has
+    /// at most one memory; the API does not refuse, and the output is a multi-memory module)
+    pub add_mem_anyway: bool,
 }
 
 impl Profile {
@@ -79,6 +82,7 @@ impl Profile {
             region_interior: false,
             final_end_after: false,
             clears: false,
+            add_mem_anyway: false,
         }
     }
 }
@@ -1406,7 +1410,7 @@ impl OpGen<'_> {
                 })
             }
             "add_local_memory" => {
-                if !self.p.multi_memory && !m.alive_mems().is_empty() {
+                if !self.p.multi_memory && !self.p.add_mem_anyway && !m.alive_mems().is_empty() {
                     return None;
                 }
                 Some(Op::AddLocalMemory {
@@ -1420,7 +1424,7 @@ impl OpGen<'_> {
                 })
             }
             "add_import_memory" => {
-                if !self.p.multi_memory && !m.alive_mems().is_empty() {
+                if !self.p.multi_memory && !self.p.add_mem_anyway && !m.alive_mems().is_empty() {
                     return None;
                 }
                 Some(Op::AddImportMemory {
